@@ -97,7 +97,7 @@ def run_check(prop: str, tier: str, rules_fn, repo: str, seed: int = 0, level: s
     """Drive one property check: build the model, run the rules, print, write evidence, return the exit code."""
     from .model import Model, AnalysisError
     t0 = time.time()
-    out_dir = os.path.join(VERIF, "out", prop)
+    out_dir = os.path.join(os.environ.get("XV_OUT_DIR") or os.path.join(VERIF, "out"), prop)
     evidence_path = evidence_path or os.path.join(VERIF, "evidence", "%s.json" % prop)
     os.makedirs(os.path.dirname(evidence_path), exist_ok=True)
     try:
